@@ -21,7 +21,7 @@ func (d *Driver) genVals(tys []*wg.Ty, maxLen int, svc bus.Service) (vals []*wg.
 			vals[i], objs[i] = objVal(p), reflect.ValueOf(p)
 			continue
 		}
-		vals[i] = wg.GenVal(d.rng, t, maxLen)
+		vals[i] = d.draw(t, maxLen)
 	}
 	return vals, objs
 }
@@ -100,7 +100,7 @@ func (d *Driver) method(rec *Record, a Action, t target, maxLen int) {
 		d.retObjs[key] = reflect.ValueOf(retObj)
 		d.mu.Unlock()
 	} else if a.Ret != nil {
-		rv = wg.GenVal(d.rng, a.Ret, maxLen)
+		rv = d.draw(a.Ret, maxLen)
 		d.mu.Lock()
 		d.rets[key] = rv
 		d.mu.Unlock()
@@ -267,7 +267,7 @@ func (d *Driver) property(rec *Record, a Action, tg target, helper interface{}, 
 	}
 	// 1. set through the proxy: the implementor's change callback sees the value, subscribers
 	//    get it, the getter returns it
-	v1 := wg.GenVal(d.rng, t, maxLen)
+	v1 := d.draw(t, maxLen)
 	set := method(proxy, a.Set)
 	mk := d.tap.mark()
 	var out []reflect.Value
@@ -278,6 +278,9 @@ func (d *Driver) property(rec *Record, a Action, tg target, helper interface{}, 
 	}
 	if e := errOf(out[0]); e != "" {
 		rec.Err = "set-error: " + e
+		delete(d.last, akey)
+	} else {
+		d.last[akey] = v1
 	}
 	got := recvEvent(ch, t)
 	c2s, s2c := d.tap.since(mk)
@@ -297,7 +300,7 @@ func (d *Driver) property(rec *Record, a Action, tg target, helper interface{}, 
 	rec.Legs = append(rec.Legs, leg("set-event", 2, []*wg.Ty{t}, []*wg.Val{v1}, ev, fe != nil, got))
 	get("get-after-set", v1)
 	// 2. update through the generated helper
-	v2 := wg.GenVal(d.rng, t, maxLen)
+	v2 := d.draw(t, maxLen)
 	h := method(helper, a.Helper)
 	mk = d.tap.mark()
 	updArgs := fillArgs(h, parts(v2), nil)
@@ -305,8 +308,11 @@ func (d *Driver) property(rec *Record, a Action, tg target, helper interface{}, 
 		rec.Err = "timeout: update helper did not return"
 		return
 	}
-	if e := errOf(out[0]); e != "" && rec.Err == "" {
-		rec.Err = "update-error: " + e
+	if e := errOf(out[0]); e != "" {
+		firstErr(rec, "update-error: "+e)
+		delete(d.last, akey)
+	} else {
+		d.last[akey] = v2
 	}
 	got = recvEvent(ch, t)
 	_, s2c = d.tap.since(mk)
